@@ -36,10 +36,42 @@ pub fn gen(ctx: &Ctx) -> Vec<Value> {
     vec![
         json!({"id": "overflow-000000", "seed": 0, "kind": "list_null", "n": 2147483647u64}),
         json!({"id": "overflow-000001", "seed": 0, "kind": "list_null", "n": 2147483648u64}),
+        // n values of 1 MiB each into ONE Utf8View column: value i goes to buffer offset i * 2^20, which fits the
+        // descriptor's i32 offset iff i <= 2047 (≈ 2 GiB of memory, a few seconds)
+        json!({"id": "overflow-000002", "seed": 0, "kind": "view_bytes", "n": 2048u64}),
+        json!({"id": "overflow-000003", "seed": 0, "kind": "view_bytes", "n": 2050u64}),
     ]
 }
 
+#[derive(serde::Serialize)]
+struct StrRow<'a> {
+    a: &'a str,
+}
+
+fn exec_view_bytes(input: &Value) -> Value {
+    let n = input["n"].as_u64().unwrap();
+    let fields = vec![Field { name: "a".into(), data_type: DataType::Utf8View, nullable: false, metadata: Default::default() }];
+    let imp = outcome::run(|| {
+        let mut builder = serde_arrow::ArrayBuilder::from_marrow(&fields)?;
+        let s = "x".repeat(1 << 20);
+        let mut first_err: Option<u64> = None;
+        for i in 0..n {
+            if builder.push(&StrRow { a: &s }).is_err() {
+                first_err = Some(i);
+                break;
+            }
+        }
+        Ok::<Value, serde_arrow::Error>(json!({"first_err": first_err}))
+    });
+    let mut case = input.clone();
+    case.as_object_mut().unwrap().insert("impl".into(), imp);
+    case
+}
+
 pub fn exec(input: &Value) -> Value {
+    if input["kind"] == "view_bytes" {
+        return exec_view_bytes(input);
+    }
     let n = input["n"].as_u64().unwrap();
     let fields = vec![Field {
         name: "a".into(),
